@@ -1,6 +1,10 @@
 package main
 
 import (
+	"fmt"
+	"go/types"
+	"strings"
+
 	"golang.org/x/tools/go/ssa"
 )
 
@@ -40,6 +44,12 @@ func runC13(c *Ctx) {
 		scope = p.FnsIn("client/lib", "proxy/lib", "probetest", "common/util")
 	}
 	des := p.Fn("common/util", "DeserializeSessionDescription")
+	// inside the entry points themselves (and what they reach): every pointer or
+	// interface result of a (T, error) call, e.g. the ICE candidate
+	c.ifaceResults = true
+	c.checkResultUse("O-3b parsed values used only after their error check", reached, nil)
+	c.ifaceResults = false
+	c.checkSDPSchema()
 	c.checkResultUse("O-3 description used only after its error check", scope, func(call *ssa.Call) bool {
 		if c.Thorough {
 			return true
@@ -66,4 +76,106 @@ func returnsResultOf(f, g *ssa.Function) bool {
 		}
 	}
 	return false
+}
+
+// checkSDPSchema: the serialiser's JSON members are exactly the members the
+// deserialiser requires (same names, none omitted when empty).
+func (c *Ctx) checkSDPSchema() {
+	p := c.P
+	rule := "O-4 serialiser and deserialiser agree on the members"
+	ser := p.Fn("common/util", "SerializeSessionDescription")
+	des := p.Fn("common/util", "DeserializeSessionDescription")
+	if ser == nil || des == nil {
+		c.undecided(rule, "util.Serialize/DeserializeSessionDescription", "-", "anchor does not resolve")
+		return
+	}
+	// members written: json tags of the marshalled struct type
+	written := map[string]bool{}
+	omit := ""
+	n := 0
+	for _, ci := range callsTo(ser, "encoding/json.Marshal") {
+		n++
+		bt := boxedType(ci.Common().Args[0])
+		if bt == nil {
+			continue
+		}
+		if pt, ok := bt.(*types.Pointer); ok {
+			bt = pt.Elem()
+		}
+		st, ok := bt.Underlying().(*types.Struct)
+		if !ok {
+			continue
+		}
+		for i := 0; i < st.NumFields(); i++ {
+			f := st.Field(i)
+			if !f.Exported() {
+				continue
+			}
+			tag := reflectTag(st.Tag(i), "json")
+			name := f.Name()
+			parts := strings.Split(tag, ",")
+			if parts[0] == "-" {
+				continue
+			}
+			if parts[0] != "" {
+				name = parts[0]
+			}
+			written[name] = true
+			for _, o := range parts[1:] {
+				if o == "omitempty" {
+					omit += name + " "
+				}
+			}
+		}
+	}
+	// members required: constant keys looked up in the parsed map
+	required := map[string]bool{}
+	allInstrs(des, func(in ssa.Instruction) {
+		if lk, ok := in.(*ssa.Lookup); ok {
+			if k, okk := constString(lk.Index); okk {
+				required[k] = true
+			}
+		}
+	})
+	c.check(n == 1 && sameStringSet(sortedKeys(written), sortedKeys(required)) && omit == "", rule, "members written == members required, none omitted when empty", p.Pos(ser.Pos()),
+		fmt.Sprintf("%v", sortedKeys(required)), fmt.Sprintf("the serialiser writes %v (omitted when empty: %q) but the deserialiser requires %v: some description does not survive the round trip", sortedKeys(written), omit, sortedKeys(required)))
+}
+
+// reflectTag extracts a key from a struct tag without importing reflect.
+func reflectTag(tag, key string) string {
+	for tag != "" {
+		i := 0
+		for i < len(tag) && tag[i] == ' ' {
+			i++
+		}
+		tag = tag[i:]
+		if tag == "" {
+			break
+		}
+		i = 0
+		for i < len(tag) && tag[i] > ' ' && tag[i] != ':' && tag[i] != '"' {
+			i++
+		}
+		if i == 0 || i+1 >= len(tag) || tag[i] != ':' || tag[i+1] != '"' {
+			break
+		}
+		name := tag[:i]
+		tag = tag[i+1:]
+		i = 1
+		for i < len(tag) && tag[i] != '"' {
+			if tag[i] == '\\' {
+				i++
+			}
+			i++
+		}
+		if i >= len(tag) {
+			break
+		}
+		val := tag[1:i]
+		tag = tag[i+1:]
+		if name == key {
+			return val
+		}
+	}
+	return ""
 }
